@@ -7,7 +7,23 @@ import copy
 import types
 
 _SNAP = {}          # module name -> list of (where, container, saved copy)
+_CACHES = {}        # module name -> list of (where, wrapper with cache_clear)
 LEAKS = {}          # where -> times it had to be restored
+
+
+def _caches_of(mod):
+    """functools.lru_cache / cache wrappers on functions and methods of the module: memoised answers
+    survive from one explored execution into the next exactly like a module-level dict"""
+    out = []
+    for name, obj in list(vars(mod).items()):
+        if hasattr(obj, 'cache_clear') and callable(obj):
+            out.append((f'{mod.__name__}.{name}', obj))
+        if isinstance(obj, type) and obj.__module__ == mod.__name__:
+            for an, av in list(vars(obj).items()):
+                av = getattr(av, '__func__', av)
+                if hasattr(av, 'cache_clear') and callable(av):
+                    out.append((f'{mod.__name__}.{name}.{an}', av))
+    return out
 
 
 def _containers_of(mod):
@@ -50,11 +66,20 @@ def register(*mods):
     for m in mods:
         if m.__name__ not in _SNAP:
             _SNAP[m.__name__] = _containers_of(m)
+            _CACHES[m.__name__] = _caches_of(m)
 
 
 def restore():
     """put every registered container back to its import-time content (in place)"""
     n = 0
+    for lst in _CACHES.values():
+        for where, fn in lst:
+            try:
+                if fn.cache_info().currsize:
+                    LEAKS[where] = LEAKS.get(where, 0) + 1
+                fn.cache_clear()
+            except Exception:
+                pass
     for lst in _SNAP.values():
         for where, obj, saved in lst:
             if obj != saved:
